@@ -1079,7 +1079,14 @@ fn static_range_check(value: i64, min: i32, range: u32, scale: u8, span: Span) -
         return Err(None);
     }
 
-    let biased = value - i64::from(min);
+    // value >= min holds here, so the subtraction can only overflow upwards
+    let biased = match value.checked_sub(i64::from(min)) {
+        Some(biased) => biased,
+        None => {
+            emit_error!(span, "Immediate too high");
+            return Err(None);
+        }
+    };
 
     if biased > i64::from(range) {
         emit_error!(span, "Immediate too high");
